@@ -27,21 +27,21 @@ CHECKS = {
     "C05": ("exploration", "history monitor: random operation sequences with an invariant oracle (reference interpreter) after every step",
             "Random histories of update/regenerate/mh/mala/hmc/vectorize-resample-index/jit round trips are applied; after every step coherence, recorded args, observed addresses, telescoping of update weights and the handler-stack invariant are checked; operation-bigram coverage is measured." + HELD, "DESIGN §4 C05", ""),
     "C06": ("exploration", "runtime monitor: repeat / perturbing-history / fault-injection differential testing of seeded functions; invariant hooks on global_counter and handler_stack",
-            "Seeded functions are re-evaluated after perturbing call histories (unseeded draws, other programs, other avals, failing GFI calls) and under jit/vmap; outputs must be bit-identical resp. transform-stable; hidden state is hooked." + HELD, "DESIGN §4 C06", ""),
+            "Seeded functions are re-evaluated after perturbing call histories (unseeded draws, other programs, other avals, failing GFI calls) and under jit/vmap; outputs must be bit-identical resp. transform-stable; hidden state is hooked; held sample bindings are driven through every history of call forms (positional / keyword names / shapes) and compared with a fresh binding; constructs seed does not interpret must be refused or still be pure in the key." + HELD, "DESIGN §4 C06", ""),
     "C07": ("exploration", "runtime monitor: per-run distinctness of equally parameterised draws and of observed sub-keys; calibrated independence tests over key batches",
             "Programs whose sites share parameters at every structural position are run under seed; draws and observed sub-keys must be pairwise distinct per run, and KS / Fisher-z / contingency tests over key batches (family-wise false alarm <= 1e-9) bound dependence." + HELD, "DESIGN §4 C07", ""),
     "C08": ("exploration", "runtime monitor: per-lane eager evaluation as reference for modular_vmap outputs; probe-site events per lane; Vmap/repeat through all GFI methods vs per-lane reference interpreter",
-            "Generated functions with density and sampling sites are mapped with many axis specifications and compared lane by lane with eager evaluation of the same function; probe events show one draw per lane with that lane's parameters; Vmap combinator variants (int/1/-1/None axes, repeat) run through simulate/assess/generate/update/regenerate." + HELD, "DESIGN §4 C08", ""),
+            "Generated functions with density and sampling sites are mapped with many axis specifications and compared lane by lane with eager evaluation of the same function; probe events show one draw per lane with that lane's parameters; mapped functions contain scans (both directions), cond/switch and loops with lane-dependent control, keyword density parameters; Vmap combinator variants (int/1/-1/None axes, repeat, stacked repeat) run through simulate/assess/generate/update/regenerate." + HELD, "DESIGN §4 C08", ""),
     "C09": ("exploration", "runtime monitor with scripted kernel randomness: logged proposal noise / momentum, accept uniform scripted around the float64 reference acceptance probability; exact transition matrices by outcome-script enumeration",
-            "One kernel step is executed with its internal randomness replaced by probe sites; proposals are compared with float64 reference MALA/leapfrog computations, the accept decision is bracketed just below/above the reference probability, rejected moves must be bit-identical; small discrete targets (incl. mixture indicators feeding a Cond) get their full transition matrix checked for detailed balance." + HELD, "DESIGN §4 C09", ""),
+            "One kernel step is executed with its internal randomness replaced by probe sites; proposals are compared with float64 reference MALA/leapfrog computations, the accept decision is bracketed just below/above the reference probability, rejected moves must be bit-identical; targets with top-level keyword arguments; latents with bounded support: a proposal that leaves the support is rejected and an accepted state lies inside it; small discrete targets (incl. mixture indicators feeding a Cond) get their full transition matrix checked for detailed balance." + HELD, "DESIGN §4 C09", ""),
     "C10": ("exploration", "runtime monitor: per-particle weight identities vs float64 reference; exact E[exp(lml)] by enumeration of all particle/ancestor outcome scripts; calibrated z-test with real samplers",
-            "SMC pipelines on HMM-like models: every particle's weight increment, the site parameters each particle saw, the marginal-estimate bookkeeping; exact unbiasedness of the evidence and of weighted estimates on small instances (N<=3,T<=3) incl. rejuvenation_smc; sampled unbiasedness with MH rejuvenation." + HELD, "DESIGN §4 C10", ""),
+            "SMC pipelines on HMM-like models: every particle's weight increment, the site parameters each particle saw, the marginal-estimate bookkeeping; exact unbiasedness of the evidence and of weighted estimates on small instances (N<=3,T<=3) incl. rejuvenation_smc; sampled unbiasedness with MH rejuvenation; partial custom proposals (auxiliary latent); estimate(h) identity under the collection's own weights after every move." + HELD, "DESIGN §4 C10", ""),
     "C11": ("exploration", "runtime monitor: enumeration / scripted randomness of ADEV estimators vs analytic expectations and derivatives; pathwise identities; calibrated z-tests",
-            "Expectation programs built from the ADEV primitives are evaluated; enumeration estimators must be exact with zero variance, reparameterised ones pathwise-exact per draw, score-function/MVD ones exact in mean over all outcomes (composed programs included)." + HELD, "DESIGN §4 C11", ""),
+            "Expectation programs built from the ADEV primitives are evaluated; enumeration estimators must be exact with zero variance, reparameterised ones pathwise-exact per draw, score-function/MVD ones exact in mean over all outcomes (composed programs included); the number of noise draws a reparameterised site requests is decided against the reference; every primitive's keyed sampler (what a pure continuation runs) is tested against the law its estimator assumes." + HELD, "DESIGN §4 C11", ""),
     "C12": ("exploration", "runtime monitor with scripted resampling randomness and tagged particles; float64 breakpoint reference; exact binomial tests with real samplers",
             "resample is run on tagged particle collections with the systematic offset and categorical ancestors scripted: copies name one source, weights reset, estimate preserved, floor/ceil copies for a dense offset grid incl. all breakpoints, exact expected copies." + HELD, "DESIGN §4 C12", ""),
     "C13": ("exploration", "runtime monitor: scipy float64 reference densities under the documented parameterisation; quadrature normalisation; exact finite-n goodness-of-fit tests on seeded draws",
-            "All 24 distributions (positional and keyword forms, user wrappers): logpdf on support grids, normalisation, sampler shape/dtype and goodness of fit (scalar, batched, sample_shape, modular_vmap) at family-wise false alarm <= 1e-9." + HELD, "DESIGN §4 C13", ""),
+            "All 24 distributions (positional and keyword forms, user wrappers): logpdf on support grids, normalisation, sampler shape/dtype and goodness of fit (scalar, batched, sample_shape, modular_vmap, modular_vmap over lanes with a sample_shape) and independence of the lanes of one call, at family-wise false alarm <= 1e-9." + HELD, "DESIGN §4 C13", ""),
     "C14": ("exploration", "runtime monitor: exhaustive enumeration of sampling-site placements under JAX transformations to bounded depth, with and without seed; jaxpr scan for residual sample primitives",
             "Every placement of a sampling site under the listed constructs (depth 2 quick / 3 thorough) is executed without and with seed; without seed compilation must raise the dedicated error, with seed the result must be key-determined with no sample primitive left, or raise that error." + HELD, "DESIGN §4 C14", ""),
     "C15": ("exploration", "differential runtime testing: ADEV jvp/grad/estimate vs jax.jvp/jax.grad/f on generated deterministic programs",
